@@ -63,6 +63,8 @@ def gen_universe(rng: random.Random, **opts: Any) -> dict:
         if "list" in kinds:
             for qp in rng.sample(QUERY_POOL, rng.randint(0, 2)):
                 qparams.append({"name": qp[0], "schema": qp[1], "required": rng.random() < 0.3})
+        if opts.get("secret_params") and "list" in kinds:
+            qparams.append({"name": "api_key", "schema": {"type": "string", "minLength": 1, "maxLength": 12}, "required": False})
         hdr = None
         if rng.random() < opts.get("p_header_param", 0.3):
             hdr = {
@@ -74,7 +76,7 @@ def gen_universe(rng: random.Random, **opts: Any) -> dict:
         cookie = None
         if rng.random() < opts.get("p_cookie_param", 0.0):
             cookie = {
-                "name": "pref",
+                "name": "session" if opts.get("secret_params") else "pref",
                 "schema": {"type": "string", "enum": ["a", "b", "c"]},
                 "required": rng.random() < 0.5,
                 "on": rng.choice([k for k in kinds]),
